@@ -76,6 +76,17 @@ CHECKS = [
         "note": "trusted: ref/codec.py traces (validated against the implementation on every use), ref/layout.py cursor formulation (cross-checked with the traces); after a nested delimited object positions are those of its declared extent envelope",
     },
     {
+        "property_id": "C13",
+        "level": "exploration",
+        "design_ref": "DESIGN.md 4/C13",
+        "technique": "bounded-exhaustive enumeration of definition texts (all token strings up to a length bound, all one-step token mutations of valid seeds, arithmetic/escape/nesting catalogue) and file names, each read by the real front end",
+        "text": "Every string of <=3 (thorough 4) tokens over a 36-token alphabet with and without blanks, every single-token deletion/duplication/swap/"
+        "replacement/insertion in 12 valid seeds, a catalogue of arithmetic corner cases, escape boundaries, nesting depths 1..100 and long chains, and "
+        "60 file names / same-identity file pairs: the outcome must be a model or an InvalidDefinitionError carrying a path. Seven escapes found this "
+        "way were repaired; one structural one (>=199 fields) is a listed known finding.",
+        "note": "texts are bounded families of Unicode strings, not all strings; astronomically large literals/powers are excluded as resource exhaustion",
+    },
+    {
         "property_id": "C14",
         "level": "exploration",
         "design_ref": "DESIGN.md 4/C14",
